@@ -93,7 +93,7 @@ func srpK() *big.Int {
 
 // SRPClient is an SRP-6a client (SHA-512, 3072-bit group).
 type SRPClient struct {
-	a, A *big.Int
+	a, A   *big.Int
 	Abytes []byte // A as sent
 	Salt   []byte
 	B      []byte // B as received
